@@ -23,53 +23,53 @@ type JPkgInfo struct {
 	StopLine          int
 }
 
-var methods []JFullMethod
-var fields = make(map[string]JField)
-var imports []JImport
-var pkgInfo JPkgInfo
-
 type JFullIdentifier struct {
 	Pkg  string
 	Name string
 	Type string
+	// the file the identifier was read from
+	File string
+
+	methods []JFullMethod
+	fields  map[string]JField
+	imports []JImport
+	pkgInfo JPkgInfo
 }
 
 func NewJFullIdentifier() JFullIdentifier {
-	identifier := JFullIdentifier{"", "", ""}
-	methods = nil
-	fields = make(map[string]JField)
-	imports = nil
+	identifier := JFullIdentifier{Pkg: "", Name: "", Type: ""}
+	identifier.fields = make(map[string]JField)
 	return identifier
 }
 
 func (identifier *JFullIdentifier) AddMethod(method JFullMethod) {
-	methods = append(methods, method)
+	identifier.methods = append(identifier.methods, method)
 }
 
 func (identifier *JFullIdentifier) GetMethods() []JFullMethod {
-	return methods
+	return identifier.methods
 }
 
 func (identifier *JFullIdentifier) AddField(field JField) {
-	fields[field.Name] = field
+	identifier.fields[field.Name] = field
 }
 
 func (identifier *JFullIdentifier) GetFields() map[string]JField {
-	return fields
+	return identifier.fields
 }
 
 func (identifier *JFullIdentifier) AddImport(jImport JImport) {
-	imports = append(imports, jImport)
+	identifier.imports = append(identifier.imports, jImport)
 }
 
 func (identifier *JFullIdentifier) GetImports() []JImport {
-	return imports
+	return identifier.imports
 }
 
 func (identifier *JFullIdentifier) SetPkgInfo(info JPkgInfo) {
-	pkgInfo = info
+	identifier.pkgInfo = info
 }
 
 func (identifier *JFullIdentifier) GetPkgInfo() JPkgInfo {
-	return pkgInfo
+	return identifier.pkgInfo
 }
